@@ -76,7 +76,7 @@ PROPS["C13"] = dict(
 
 PROPS["C14"] = dict(
     suites=["c14", "c14r"],
-    lean_modules=["ServlinVerif.Props.C14"],
+    lean_modules=["ServlinVerif.Props.C14", "ServlinVerif.Props.C04Pipeline"],
     audit="Audit/C14.lean",
     rule="exhaustive: every collection of <=4 (quick) / <=5 (thorough) fields over 6 name spellings with pairwise distinct values x every "
          "sequence of <=2 (<=3) lookups/removals; random sequences of 1..12 ops over all five operations on <=8 fields; every TryFrom "
@@ -585,7 +585,9 @@ ADD = {
     "C13": dict(
         rule="New phases: x (handler running on a request that announced its 70 000-byte body with Expect: the 100 Continue, the upload and the complete response must still happen), "
              "f (handler owns an upload file of 100 000 bytes); c13e also with revocation 4.2 s (thorough: 9 s) into the failing-accept state."),
-    "C14": dict(rule="Also names that differ in exactly one bit of one byte (every ASCII byte x bits 0x20, 0x40, 0x01, 0x10), looked up and removed both ways."),
+    "C14": dict(explanation="Props/C04Pipeline.lean: C14_request_headers — for every accepted well-formed head (whatever follows it) the request handed on carries exactly the fields sent, in order, "
+                         "names verbatim, values stripped of OWS only, minus those named content-type / expect / transfer-encoding.",
+                rule="Also names that differ in exactly one bit of one byte (every ASCII byte x bits 0x20, 0x40, 0x01, 0x10), looked up and removed both ways."),
     "C15": dict(rule="A third of the request cases have consumed fields (content-type, expect, transfer-encoding) in front of, between and behind up to 4 Cookie fields."),
     "C16": dict(
         explanation="Props/CodeTables.lean: monthLen_matches — month_len_days regenerated for every month of a 400-year cycle and kernel-checked against the model; monthLen_cycle lifts it to every year."),
